@@ -269,14 +269,33 @@ def inspect_decorator(
             )
         )
 
-    # Find the decorator end -- it's either a function definition, a class definition or another decorator
+    # Find the decorator end -- it's either a function definition, a class definition or another decorator.
+    #
+    # A line within the decorator may look like the next statement as well (*e.g.*, a continuation line of
+    # the condition which starts with the matrix multiplication operator, ``@other``). The decorator text up to such
+    # a line can not be parsed, so we move on to the next candidate line.
     decorator_end_lineno = None  # type: Optional[int]
+    atok = None  # type: Optional[asttokens.asttokens.ASTTokens]
+    syntax_error = None  # type: Optional[SyntaxError]
     for i in range(lineno + 1, len(lines)):
         line = lines[i]
 
         if _DECORATOR_RE.match(line) or _DEF_CLASS_RE.match(line):
             decorator_end_lineno = i
-            break
+            decorator_lines = lines[decorator_lineno:decorator_end_lineno]
+
+            # We need to dedent the decorator and add a dummy decorate so that we can parse its text as valid
+            # source code.
+            decorator_text = textwrap.dedent(
+                "".join(decorator_lines)
+            ) + "def dummy_{}(): pass".format(uuid.uuid4().hex)
+
+            try:
+                atok = asttokens.asttokens.ASTTokens(decorator_text, parse=True)
+                break
+            except SyntaxError as err:
+                if syntax_error is None:
+                    syntax_error = err
 
     if decorator_end_lineno is None:
         raise SyntaxError(
@@ -286,14 +305,9 @@ def inspect_decorator(
             ).format(lineno + 1, filename, lines[lineno])
         )
 
-    decorator_lines = lines[decorator_lineno:decorator_end_lineno]
-
-    # We need to dedent the decorator and add a dummy decorate so that we can parse its text as valid source code.
-    decorator_text = textwrap.dedent(
-        "".join(decorator_lines)
-    ) + "def dummy_{}(): pass".format(uuid.uuid4().hex)
-
-    atok = asttokens.asttokens.ASTTokens(decorator_text, parse=True)
+    if atok is None:
+        assert syntax_error is not None
+        raise syntax_error
 
     if not isinstance(atok.tree, ast.Module):
         raise ValueError(
